@@ -21,6 +21,8 @@ const importsRel = "internal/pkg/imports"
 func C14(e *Env) {
 	r := e.R
 	e.analysedBase()
+	yamlKeysRule(e, "R11.12", "imports", "functions", "meta")
+	e.R.Rule("R11.12", "key table (shared with C11): meta.imports and meta.functions are recognised under their documented spelling", 3)
 	r.Rule("R14.1", "whole-segment match: decorateImport looks the FIRST path segment of the reference (strings.Cut / Split at \"/\") up in the alias table — one lookup, no loop, no prefix test — and returns the reference itself, the alias target, or target + \"/\" + remainder", 4)
 	r.Rule("R14.2", "no choice depends on map iteration order: package imports has no order-sensitive map range (engine M)", 1)
 	r.Rule("R14.3", "sanitise-then-alias: every import reference handed to Alias or RegisterPrefixAlias is a constant or went through syntax.SanitizeImport (quotes stripped, \".\" → current package), also through constructor parameters, struct fields and interface calls", 8)
